@@ -268,10 +268,18 @@ def save_replay(pid, src, tag):
     return dst
 
 
-def crash_replay(pid, unit, logp, seed, shard, kind):
+def crash_replay(pid, unit, logp, seed, shard, kind, work=None, ospid=None):
     d = os.path.join(VERIF, "replays", pid)
     os.makedirs(d, exist_ok=True)
     dst = os.path.join(d, "%s-crash-%s.json" % (unit["name"], time.strftime("%Y%m%d-%H%M%S")))
+    # a check that tracks its current case leaves the script that was running when the process died
+    if work and ospid:
+        cur = glob.glob(os.path.join(work, "out", "current", "*.%d.json" % ospid))
+        if cur:
+            doc = json.load(open(cur[0]))
+            doc["msg"] = "test process died (%s) while this case was running; log tail:\n%s" % (kind, tail(logp, 40))
+            json.dump(doc, open(dst, "w"), indent=1)
+            return dst
     json.dump({"property": pid, "check": unit["name"], "kind": kind, "seed": str(seed), "shard": shard,
                "rapid_seed": str(rapid_seed(seed, shard)), "repo_head": repo_head(),
                "how_to_rerun": "VERIF_SEED=%d ./run.py %s" % (seed, pid), "log_tail": tail(logp, 120)}, open(dst, "w"), indent=1)
@@ -397,7 +405,7 @@ def run_check(pid, cfg, tier, seed, work, a, t0):
             continue
         allowed = pr["unit"].get("crash_is_violation", True)
         if kind in ("race", "crash", "testfail") and allowed:
-            vio_paths.append(crash_replay(pid, pr["unit"], pr["log"], seed, pr["shard"], kind))
+            vio_paths.append(crash_replay(pid, pr["unit"], pr["log"], seed, pr["shard"], kind, work, pr["p"].pid))
             log("---- %s (%s) ----\n%s" % (pr["unit"]["name"], kind, tail(pr["log"], 60)))
         else:
             inconclusive.append((pr, kind))
